@@ -73,7 +73,9 @@ Palette == <<
    its |-> <<D - 1, 0>>,
    sent |-> <<D - 1, "08:30:00", "+0100">>,
    hdrs |-> << <<"From", "judy@qzone.example">>,
-               <<"Subject", "zeta">> >>,
+               <<"Subject", "zeta">>,
+               <<"X-Rep", "first occurrence">>,
+               <<"X-Rep", "second qzrep">> >>,      \* a repeated header field
    body |-> "six qzbody"] >>
 NT == Len(Palette)
 
@@ -123,6 +125,7 @@ StrLeaves == {<<"FROM", "qzone">>, <<"FROM", "ALICE Q">>, <<"TO", "bob@">>,
               <<"SUBJECT", "qzsub">>, <<"SUBJECT", "a b">>, <<"SUBJECT", "">>,
               <<"HEADER", "X-Qz", "yankee">>, <<"HEADER", "x-qz", "">>,
               <<"HEADER", "Subject", "BETA">>, <<"HEADER", "To", "qzto.example">>,
+              <<"HEADER", "X-Rep", "first">>, <<"HEADER", "X-Rep", "qzrep">>, <<"TEXT", "qzrep">>,
               <<"BODY", "qzbody">>, <<"BODY", "Alpha">>, <<"BODY", "qzsub">>,
               <<"TEXT", "alpha">>, <<"TEXT", "qzcc">>, <<"TEXT", "x-qz">>,
               <<"TEXT", "no marker">>}
